@@ -19,10 +19,29 @@ def scheduled(sc, w):
     return {"sched": (7919 * sc.index + 13, [])}
 
 
+def padding_pieces(w, rng):
+    """A torrent in which one or more whole pieces lie inside a padding file (a pad at least one piece long, or one that
+    starts on a piece boundary and fills the piece): such pieces are pieces - counted, printed, succeeded (zeros verify)."""
+    import worldgen
+    L = rng.choice([2, 3, 4])
+    F = worldgen.TFile
+    a = F([b"a.bin"], worldgen.rand_content(rng, rng.choice([L, 2 * L, L + 1, 1])))
+    pad = F([b".pad", b"%d" % rng.randint(0, 99)], bytes(rng.choice([L, 2 * L, 2 * L + 1, 3 * L - (a.length % L)])), pad=True)
+    b = F([b"d", b"b.bin"], worldgen.rand_content(rng, rng.randint(1, 5)))
+    t = worldgen.TorrentSpec(b"padded%d" % rng.randint(0, 99), L, [a, pad, b], False)
+    if any(t.info_hash == u.info_hash for u in w.torrents):
+        return
+    w.torrents.append(t)
+    w.presented = list(w.presented) + [len(w.torrents) - 1]
+    for k, f in enumerate(t.files):
+        if not f.pad and rng.random() < 0.85:
+            w.put_file(tuple(list(w.scans[0]) + [b"pp_%d" % k]), f.content)
+
+
 _correspondence, search, replay, ASSUMPTIONS = runbase.make(
     "C15", [oracles.c15],
-    [("std", 130, 1200, {}, None), ("dup", 70, 800, {}, dup), ("sched", 60, 600, {}, many_threads, scheduled)],
-    "generated worlds, with duplicate and permuted torrent lists, with real threads and (stream sched) under seeded schedules of the deterministic scheduler in which every lock operation and every progress print is a scheduling point; stdout progress lines of the real run, in print order, vs piece count, per-piece outcomes and the export tree afterwards",
+    [("std", 130, 1200, {}, None), ("dup", 70, 800, {}, dup), ("sched", 60, 600, {}, many_threads, scheduled), ("padpieces", 24, 200, {}, padding_pieces)],
+    "generated worlds, with duplicate and permuted torrent lists, torrents in which whole pieces lie inside a padding file, with real threads and (stream sched) under seeded schedules of the deterministic scheduler in which every lock operation and every progress print is a scheduling point; stdout progress lines of the real run, in print order, vs piece count, per-piece outcomes and the export tree afterwards",
     "counters_sum / one line per piece on the model; success only after the found branch (solve_prog) ; tied to the code by trace validation and the progress-line oracle",
     ["'verifies afterwards' is checked for fault-free completed runs"])
 
